@@ -67,7 +67,7 @@ class D(Driver):
         self.SVG = SVG
 
     # ------------------------------------------------------------
-    def judge(self, res, doc, out, nd, at, du, meta=None, entry="library"):
+    def judge(self, res, doc, out, nd, at, du, meta=None, entry="library", replay_extra=None):
         errs = PGm.validate(out, nd, at)
         if not errs:
             has_path = "<path" in out
@@ -86,7 +86,7 @@ class D(Driver):
         res["viol"].append(dict(
             rule="grammar:" + ",".join(rules), sig="grammar:" + ",".join(rules) + (f":{mech}" if mech else ""), mech=mech,
             msg=f"[{entry} ndigits={nd} allow_text={at} drop_unsupported={du}] " + "; ".join(m for _, m in errs[:4]) + f"\nSOURCE: {doc[:3000]}\nOUTPUT: {out[:1500]}",
-            replay={"kind": "doc", "doc": doc, "ndigits": nd, "allow_text": at, "drop_unsupported": du}))
+            replay=dict({"kind": "doc", "doc": doc, "ndigits": nd, "allow_text": at, "drop_unsupported": du}, **(replay_extra or {}))))
 
     def convert_and_judge(self, res, doc, nd, at, du, meta=None, root=None):
         res["evals"] += 1
@@ -218,7 +218,7 @@ class D(Driver):
                 # no byte comparison on this route (the CLI rounds after clipping); the printed document is
                 # judged on its own by the grammar validator
                 bump(res["features"], "cli_clip_outputs_judged")
-                self.judge(res, doc, out, 3, at, du, meta, entry="CLI --clip_to_viewbox")
+                self.judge(res, doc, out, 3, at, du, meta, entry="CLI --clip_to_viewbox", replay_extra={"cli_clip": True})
                 return
             if out.strip() != lib.strip():
                 res["viol"].append(dict(rule="cli_vs_library", sig="cli_output_differs", msg=f"CLI {args[3:]} output differs from the library's tostring(pretty_print=True)\nCLI: {out[:600]}\nLIB: {lib[:600]}",
@@ -234,5 +234,18 @@ class D(Driver):
 
     def replay(self, rp):
         res = new_result()
+        if rp.get("cli_clip"):
+            # the command line route with --clip_to_viewbox: run it again and validate what it prints
+            env = dict(os.environ)
+            env["PYTHONPATH"] = os.path.join(bootstrap.repo_root(), "src")
+            env["PYTHONUTF8"] = "1"
+            args = [sys.executable, "-m", "picosvg.picosvg", "--clip_to_viewbox"]
+            args += ["--allow_text"] if rp.get("allow_text") else []
+            args += ["--drop_unsupported"] if rp.get("drop_unsupported") else []
+            p = subprocess.run(args, input=rp["doc"], capture_output=True, text=True, encoding="utf-8", timeout=120, env=env)
+            if p.returncode == 0:
+                stagemon.reset()
+                self.judge(res, rp["doc"], p.stdout, 3, rp.get("allow_text", False), rp.get("drop_unsupported", False), entry="CLI --clip_to_viewbox")
+            return res["viol"]
         self.convert_and_judge(res, rp["doc"], rp.get("ndigits", 3), rp.get("allow_text", False), rp.get("drop_unsupported", False))
         return res["viol"]
